@@ -307,7 +307,9 @@ func WorkerMain(t *testing.T) {
 			fmt.Printf("INFRA cannot read replay %s: %v\n", rp, err)
 			os.Exit(2)
 		}
-		res := RunOne(t, rf.Seed, p.Config(rf.Plan), rf.Schedule, true, verbose, func(env *Env) *Violation { return p.Run(env, rf.Plan) })
+		// VERIF_REPLAY_LOOSE=1: follow the recorded schedule where it still applies (edited plans, triage)
+		strict := os.Getenv("VERIF_REPLAY_LOOSE") != "1"
+		res := RunOne(t, rf.Seed, p.Config(rf.Plan), rf.Schedule, strict, verbose, func(env *Env) *Violation { return p.Run(env, rf.Plan) })
 		if res.Infra != "" {
 			fmt.Printf("INFRA %s\n", res.Infra)
 			os.Exit(2)
